@@ -19,13 +19,13 @@ package method
 //@     && (Plain(sig, opts, lo, j) ==> use == ArgUseSource || use == ArgUseMultiSource)
 
 //@ func isError
-//@   props C14
+//@   props C14 C13
 //@   pure
 //@   requires@C13 obj != nil
 //@   ensures result == (dynIs[*types.Named](obj.Type()) && unboxed[*types.Named](obj.Type()).Obj().Name() == "error" && unboxed[*types.Named](obj.Type()).Obj().Pkg() == nil)
 
 //@ func Parse
-//@   props C14 C10 C06
+//@   props C14 C10 C06 C13
 //@   requires@C13 obj != nil && opts != nil
 //@   assigns nothing
 //@   ensures err == nil ==> result != nil && isFresh(result)
@@ -106,13 +106,13 @@ package method
 //@   loop 1 invariant forall k string :: has(seen, k) ==> has(m, k)
 
 //@ func checkOverlap
-//@   props C06
+//@   props C06 C13
 //@   pure
 //@   requires@C13 left != nil && right != nil
 //@   ensures (result != nil) == satisfiesContext(left.Context, right.Context)
 
 //@ func Index.Has
-//@   props C06
+//@   props C06 C13
 //@   pure
 //@   requires@C13 l != nil
 //@   ensures result == has(l.Exact, sig)
@@ -125,14 +125,14 @@ package method
 //@     && (!id.update ==> has(l.Exact, id.sig) && 0 <= id.idx && id.idx < len(l.Exact[id.sig]))
 
 //@ func Index.ByID
-//@   props C06
+//@   props C06 C13
 //@   pure
 //@   requires@C13 l != nil
 //@   requires@C13 ValidID(l, id)
 //@   ensures result == ite(id.update, l.Update[id.idx], l.Exact[id.sig][id.idx].Item)
 
 //@ func satisfiedError
-//@   props C06
+//@   props C06 C13
 //@   pure
 //@   requires@C13 forall j int :: 0 <= j && j < len(hits) ==> hits[j].Def != nil
 //@   ensures result != nil
@@ -140,7 +140,7 @@ package method
 // Get: nil/nil iff the signature is absent; otherwise the FIRST entry whose required context is available,
 // or an error when no entry is satisfiable
 //@ func Index.Get
-//@   props C06
+//@   props C06 C13
 //@   requires@C13 IndexWF(l)
 //@   assigns nothing
 //@   ensures !has(l.Exact, sig) ==> result == nil && err == nil
@@ -155,7 +155,7 @@ package method
 // Register: appends (def, t) to the entries of def.Signature unless an existing entry overlaps in either
 // direction; every other signature, every earlier entry and every earlier id stay intact
 //@ func Index.Register
-//@   props C06
+//@   props C06 C13
 //@   requires@C13 IndexWF(l) && def != nil && t != nil
 //@   assigns map(l.Exact)
 //@   ensures IndexWF(l)
@@ -170,7 +170,7 @@ package method
 //@   loop 1 invariant forall j int :: 0 <= j && j < idx ==> !satisfiesContext(old(l.Exact[def.Signature])[j].Def.Context, def.Context) && !satisfiesContext(def.Context, old(l.Exact[def.Signature])[j].Def.Context)
 
 //@ func Index.RegisterUpdate
-//@   props C06
+//@   props C06 C13
 //@   requires@C13 l != nil
 //@   assigns l.Update
 //@   ensures err == nil && len(l.Update) == len(old(l.Update)) + 1 && l.Update[len(old(l.Update))] == t
